@@ -185,5 +185,64 @@ pub fn run(scn: &str) {
             }
         }
     }
+    // ---- dynamic-rank views (specs/dynarr.rs): axis_iter / axis_iter_mut over the LAST axis, len_of, ndim, first, into_dyn,
+    //      Zip::fold_while (sequential, early exit at Done, accumulator is the value) and Result::map_or_else (rewrites R12 / R13)
+    for sh in [vec![3usize, 2], vec![4, 2, 3], vec![3, 1, 2], vec![5, 3, 1, 2], vec![3, 2, 0], vec![3, 0, 2], vec![4, 3]] {
+        for (lname, a) in layouts(&sh) {
+            let rows = rows_of(&a);
+            let nd = sh.len();
+            let d = sh[nd - 1];
+            let lanes: usize = sh[1..].iter().product();
+            let ax = Axis(nd - 1);
+            ck(&format!("dyn-ndim-len_of[{sh:?},{lname}]"), a.ndim() == nd && a.len_of(ax) == d && a.axis_iter(ax).len() == d, String::new());
+            let dynv = a.view().into_dyn();
+            ck(&format!("into_dyn[{sh:?},{lname}]"), dynv.shape() == &sh[..] && rows_of(&dynv.to_owned()) == rows && rows.iter().all(|r| r.len() == lanes), String::new());
+            // item i of axis_iter(last): shape = shape without the last axis; lane s of the item is lane s*d + i of the parent
+            let mut ok_item = true;
+            for (i, it) in a.axis_iter(ax).enumerate() {
+                let sub = rows_of(&it.to_owned().into_dyn());
+                ok_item &= it.shape() == &sh[..nd - 1];
+                for j in 0..lanes { if j % d == i { for r in 0..sh[0] { ok_item &= sub[r][j / d].to_bits() == rows[r][j].to_bits(); } } }
+                ok_item &= sub.iter().all(|r| r.len() * d == lanes);
+            }
+            ck(&format!("axis_item[{sh:?},{lname}]"), ok_item, String::new());
+            // writes through item i of axis_iter_mut land in the lanes j with j % d == i and nowhere else
+            let mut ok_mut = true;
+            for i in 0..d {
+                let mut b = a.clone();
+                { let mut it = b.axis_iter_mut(ax).nth(i).unwrap(); it.mapv_inplace(|v| v * 2.0 + 100.0); }
+                let rb = rows_of(&b);
+                for r in 0..sh[0] { for j in 0..lanes { let want = if j % d == i { rows[r][j] * 2.0 + 100.0 } else { rows[r][j] }; ok_mut &= rb[r][j].to_bits() == want.to_bits(); } }
+                ok_mut &= b.shape() == &sh[..];
+            }
+            ck(&format!("axis_item_mut[{sh:?},{lname}]"), ok_mut, String::new());
+            let fe = a.first().copied();
+            ck(&format!("first[{sh:?},{lname}]"), if sh[0] > 0 && lanes > 0 { fe.map(f64::to_bits) == Some(rows[0][0].to_bits()) } else { fe.is_none() }, String::new());
+            // fold_while: items visited in order 0,1,..; stops after the first Done; into_inner() is the last accumulator
+            for stop in [None, Some(0usize), Some(1)] {
+                let mut seen: Vec<usize> = Vec::new();
+                let mut b = a.clone();
+                let idx = Array1::from_iter(0..d);
+                let r = Zip::from(b.axis_iter_mut(ax)).and(a.axis_iter(ax)).and(&idx).fold_while(Ok::<(), usize>(()), |_, mut kk, dd, &i| {
+                    seen.push(i);
+                    kk.assign(&dd.mapv(|v| v + 1.0));
+                    (if Some(i) == stop { Err(i) } else { Ok(()) }).map_or_else(|e| ndarray::FoldWhile::Done(Err(e)), |_| ndarray::FoldWhile::Continue(Ok(())))
+                }).into_inner();
+                let upto = match stop { Some(sx) if sx < d => sx + 1, _ => d };
+                let want_r = match stop { Some(sx) if sx < d => Err(sx), _ => Ok(()) };
+                let rb = rows_of(&b);
+                let mut okf = seen == (0..upto).collect::<Vec<_>>() && r == want_r;
+                for rr in 0..sh[0] { for j in 0..lanes { let want = if d > 0 && j % d < upto { rows[rr][j] + 1.0 } else { rows[rr][j] }; okf &= rb[rr][j].to_bits() == want.to_bits(); } }
+                ck(&format!("fold_while[{sh:?},{lname},{stop:?}]"), okf, String::new());
+            }
+        }
+    }
+    // Zip over axis iterators of different extent panics (zipfold_check is a proof obligation in the shim)
+    {
+        let a: ArrayD<f64> = Array::zeros(IxDyn(&[3, 2]));
+        let b: ArrayD<f64> = Array::zeros(IxDyn(&[3, 3]));
+        let p = catch_unwind(AssertUnwindSafe(|| { Zip::from(a.axis_iter(Axis(1))).and(b.axis_iter(Axis(1))).for_each(|_, _| {}); })).is_err();
+        ck("fold_while-extent-mismatch-panics", p, String::new());
+    }
     emit(scn, &v);
 }
